@@ -28,6 +28,9 @@ def replay_step(ctx, path, trace_module='Trace_Step'):
     arm = M.new_arm(cfg_path, fetch=True)
     base = c['header']['h']['base']
     base = dict(base, osys={}, memsz=[])
+    cur = M.project(arm)
+    for k, v in cur['sys'].items():          # replay files written before a system register was added to the projection
+        base['sys'].setdefault(k, v)
     pre = overlay(base, c['event']['pre'])
     ev, post = M.step_event(arm, 1, M.project_like(arm, base), pre, c['event']['act'])
     hdr = {'h': {'cfg': M.spec_cfg(cfg), 'base': {k: M.project_like(arm, base)[k] for k in ('R', 'cpsr', 'spsr', 'elr', 'sys', 'mem', 'ev')}}}
